@@ -213,17 +213,22 @@ func (d *drv) start(t int, init M) {
 	for _, p := range pol.ExclusiveRouteProtocols {
 		excl = append(excl, int(p))
 	}
+	ct := true // conntrack cleanup on route moves (the main table's default)
+	if v, ok := init["ct"]; ok {
+		ct = b(v)
+	}
 	mt := mocktime.New()
 	d.rt = routetable.New(pol, uint8(d.ipv), 10*time.Second, nil, unix.RTPROT_BOOT, removeExt, tbl,
 		logrusr.NewSummarizer("verif"), d.dp,
 		routetable.WithTimeShim(mt),
 		routetable.WithConntrackShim(d.dp),
+		routetable.WithConntrackCleanup(ct),
 		routetable.WithNetlinkHandleShim(d.dp.NewMockNetlink),
 	)
 	d.log.Reset(t, M{
 		"cfg": M{"ipv": d.ipv, "table": d.table, "defProto": int(unix.RTPROT_BOOT), "devSrc": "",
 			"wl": wlNames, "special": specialNames, "ipip": ipipName, "removeExt": removeExt, "ownBird": ownBird,
-			"allProtos": all, "exclusive": excl},
+			"allProtos": all, "exclusive": excl, "ct": ct},
 		"kernel": d.kernel(), "links": d.links(),
 	})
 }
@@ -374,11 +379,18 @@ func (d *drv) random(t int, rnd *rand.Rand) {
 	universe := []ifs{{"cali1", []int{11, 12, 13}}, {"cali2", []int{21, 22}}, {"cali3", []int{31, 32}}, {"eth0", []int{2}},
 		{"eth1", []int{3, 4}}, {"vxlan.calico", []int{41, 42}}, {"tunl0", []int{51}}}
 	next := map[string]int{}
+	fresh := 100
+	idxReuse := os.Getenv("VERIF_IDXREUSE") == "1"
 	tables := []int{254, 254, 254, 100}
 	prios := []int{0, 0, 100}
 	if ipv == 6 {
 		prios = []int{1024, 1024, 100}
 	}
+	// With conntrack cleanup enabled the histories keep away from the confirmed defect F1 (notes/C17.md):
+	// a single-address destination is only ever wanted through one fixed (class, interface), and kernel
+	// routes put there by the environment never look like a route Felix would program.
+	ct := rnd.Intn(2) == 0
+	single := func(dst string) bool { return dst[len(dst)-3:] == "/32" || dst[len(dst)-4:] == "/128" }
 	// foreign / stale kernel routes
 	rroute := func(live func(string) int) M {
 		u := universe[rnd.Intn(len(universe))]
@@ -397,9 +409,14 @@ func (d *drv) random(t int, rnd *rand.Rand) {
 		if ifx == 0 && typ == unix.RTN_UNICAST {
 			ifx = 2
 		}
-		return M{"table": tables[rnd.Intn(len(tables))], "dst": dsts[rnd.Intn(len(dsts))], "prio": prios[rnd.Intn(len(prios))], "tos": 0,
+		dst := dsts[rnd.Intn(len(dsts))]
+		gw := gws[rnd.Intn(len(gws))]
+		if ct && single(dst) && typ == unix.RTN_UNICAST {
+			gw = gws[1][:len(gws[1])-1] + "9"
+		}
+		return M{"table": tables[rnd.Intn(len(tables))], "dst": dst, "prio": prios[rnd.Intn(len(prios))], "tos": 0,
 			"ifx": ifx, "type": typ, "scope": scope, "proto": []int{2, 3, 3, 12, 80, 4}[rnd.Intn(6)],
-			"gw": gws[rnd.Intn(len(gws))], "src": "", "onlink": rnd.Intn(5) == 0, "mtu": 0, "family": fam}
+			"gw": gw, "src": "", "onlink": rnd.Intn(5) == 0, "mtu": 0, "family": fam}
 	}
 	links := []any{}
 	cur := map[string]int{}
@@ -416,7 +433,7 @@ func (d *drv) random(t int, rnd *rand.Rand) {
 	for i := rnd.Intn(6); i > 0; i-- {
 		routes = append(routes, rroute(live))
 	}
-	d.start(t, M{"ipv": ipv, "table": 0, "removeExt": rnd.Intn(2) == 0, "ownBird": rnd.Intn(2) == 0, "links": links, "routes": routes})
+	d.start(t, M{"ipv": ipv, "table": 0, "removeExt": rnd.Intn(2) == 0, "ownBird": rnd.Intn(2) == 0, "ct": ct, "links": links, "routes": routes})
 	classes := []int{0, 3, 4, 7, 8}
 	rtarget := func(ifn string) M {
 		tt := []string{"", "", "vxlan", "global-unicast", "local-unicast", "noencap", "onlink"}[rnd.Intn(7)]
@@ -440,25 +457,48 @@ func (d *drv) random(t int, rnd *rand.Rand) {
 		}
 		return []string{"cali1", "cali2", "cali3", "cali1", "eth0", "vxlan.calico", "tunl0"}[rnd.Intn(7)]
 	}
+	type bnd struct {
+		cls int
+		ifn string
+	}
+	bind := map[string]bnd{dsts[0]: {0, "cali1"}, dsts[1]: {0, "cali2"}, dsts[2]: {3, "cali3"}}
+	// pick (class, interface, target); in ct mode a single-address destination keeps its fixed owner
+	pick := func() (int, string, M) {
+		ifn := rifn()
+		cls := classes[rnd.Intn(len(classes))]
+		tg := rtarget(ifn)
+		if bd, ok := bind[tracelog.Str(tg["dst"])]; ok && ct {
+			t2 := rtarget(bd.ifn)
+			t2["dst"] = tg["dst"]
+			return bd.cls, bd.ifn, t2
+		}
+		return cls, ifn, tg
+	}
 	steps := 15 + rnd.Intn(25)
 	connFails := 0
 	for i := 0; i < steps; i++ {
 		switch c := rnd.Intn(20); c {
 		case 0, 1:
-			ifn := rifn()
+			cls, ifn, first := pick()
 			n := rnd.Intn(4)
 			ts := []any{}
 			for j := 0; j < n; j++ {
-				ts = append(ts, rtarget(ifn))
+				tg := first
+				if j > 0 {
+					tg = rtarget(ifn)
+					if _, bound := bind[tracelog.Str(tg["dst"])]; bound && ct {
+						continue
+					}
+				}
+				ts = append(ts, tg)
 			}
-			d.step(M{"op": "set_routes", "cls": classes[rnd.Intn(len(classes))], "ifn": ifn, "targets": ts})
+			d.step(M{"op": "set_routes", "cls": cls, "ifn": ifn, "targets": ts})
 		case 2, 3, 4:
-			ifn := rifn()
-			d.step(M{"op": "route_update", "cls": classes[rnd.Intn(len(classes))], "ifn": ifn, "target": rtarget(ifn)})
+			cls, ifn, tg := pick()
+			d.step(M{"op": "route_update", "cls": cls, "ifn": ifn, "target": tg})
 		case 5:
-			ifn := rifn()
-			tg := rtarget(ifn)
-			d.step(M{"op": "route_remove", "cls": classes[rnd.Intn(len(classes))], "ifn": ifn, "dst": tg["dst"], "prio": tg["prio"]})
+			cls, ifn, tg := pick()
+			d.step(M{"op": "route_remove", "cls": cls, "ifn": ifn, "dst": tg["dst"], "prio": tg["prio"]})
 		case 6, 7:
 			u := universe[rnd.Intn(len(universe))]
 			if u.name == "eth0" {
@@ -468,9 +508,14 @@ func (d *drv) random(t int, rnd *rand.Rand) {
 			case 0: // delete
 				d.step(M{"op": "link", "name": u.name, "idx": 0, "up": false, "flush": true})
 				delete(cur, u.name)
-			case 1: // (re)create with the next ifindex
+			case 1: // (re)create with the next ifindex (VERIF_IDXREUSE=1: cycle through a small pool, so
+				// that an interface can come back with an index it had before - see notes/C17.md)
 				idx := u.idxs[next[u.name]%len(u.idxs)]
 				next[u.name]++
+				if !idxReuse {
+					fresh++
+					idx = fresh
+				}
 				if idx == cur[u.name] {
 					continue
 				}
@@ -513,14 +558,23 @@ func (d *drv) random(t int, rnd *rand.Rand) {
 				fl = append(fl, names[rnd.Intn(len(names))])
 			}
 			persist := rnd.Intn(4) == 0
+			listing := false
 			for _, f := range fl {
 				if f == "NewNetlink" || f == "SetSocketTimeout" || f == "SetStrict" {
 					connFails++
 					persist = false
 				}
+				if f == "RouteList" || f == "RouteListEINTR" || f == "RouteListWEINTR" {
+					listing = true
+				}
 			}
 			if connFails > 2 {
 				continue // three connection failures in a row make the handle manager panic by design
+			}
+			if listing && os.Getenv("VERIF_LISTFAIL_PARTIAL") != "1" {
+				// a failed route listing is only injected into a FULL resync: a per-interface resync
+				// swallows it (confirmed defect F2, notes/C17.md)
+				d.step(M{"op": "resync"})
 			}
 			d.step(M{"op": "fail", "flags": fl, "persist": persist})
 			d.step(M{"op": "apply"})
